@@ -4,6 +4,7 @@ import (
 	"fmt"
 	"math/bits"
 	"sort"
+	"strings"
 
 	u "github.com/utreexo/utreexo"
 )
@@ -369,11 +370,49 @@ func (s *Sim) obsLookups(extra []u.Hash) {
 		}
 		if in.pol != nil {
 			emit("obs %s count %d %d", in.label, len(in.pol.NodeMap), in.pol.NumDels)
+			s.obsPointerDump(in)
 		}
 		if in.mp != nil {
 			emit("obs %s cachedcount %d", in.label, in.mp.CachedLeaves.Length())
 		}
 	}
+}
+
+// obsPointerDump dumps the pointer forest (every reachable node with the position implied by
+// its place in the aunt/niece structure) and the NodeMap with calculatePosition of each entry.
+func (s *Sim) obsPointerDump(in *Inst) {
+	var nodes []u.VerifNode
+	var mapped map[u.Hash]uint64
+	r := guard(watchdog, func() { nodes, mapped, _ = in.pol.VerifDump() })
+	if r != "ok" {
+		emit("obs %s pdump %s", in.label, r)
+		return
+	}
+	sort.Slice(nodes, func(a, b int) bool { return nodes[a].Pos < nodes[b].Pos })
+	np := make([]string, len(nodes))
+	for i, n := range nodes {
+		np[i] = fmt.Sprintf("%d:%s:%s", n.Pos, hx(n.Hash), b01(n.Leaf))
+	}
+	type hp struct {
+		h u.Hash
+		p uint64
+	}
+	var ms []hp
+	for h, p := range mapped {
+		ms = append(ms, hp{h, p})
+	}
+	sort.Slice(ms, func(a, b int) bool { return ms[a].p < ms[b].p })
+	mp := make([]string, len(ms))
+	for i, m := range ms {
+		mp[i] = fmt.Sprintf("%d:%s", m.p, hx(m.h))
+	}
+	j := func(x []string) string {
+		if len(x) == 0 {
+			return "-"
+		}
+		return strings.Join(x, ",")
+	}
+	emit("obs %s pdump %s %s", in.label, j(np), j(mp))
 }
 
 // internalHashes returns the hashes of internal nodes and roots as seen by the prover.
